@@ -130,6 +130,25 @@ def build(kind, ccalls):
     return a, outs
 
 
+def rebuild_by_constructor(a):
+    """The same automaton handed to the class constructor as a whole (states, alphabet, transition function, start,
+    finals): the second public way of building one.  Returns a guard.call result."""
+    from pyformlang.finite_automaton import TransitionFunction, NondeterministicTransitionFunction
+    kind = kind_of(a)
+
+    def make():
+        tf = TransitionFunction() if kind == "dfa" else NondeterministicTransitionFunction()
+        for s_from, symb, s_to in a:
+            tf.add_transition(s_from, symb, s_to)
+        if kind == "dfa":
+            start = a.start_state
+        else:
+            start = set(a.start_states)
+        return CLASSES[kind](states=set(a.states), input_symbols=set(a.symbols), transition_function=tf, start_state=start,
+                             final_states=set(a.final_states))
+    return guard.call(make)
+
+
 def from_abstract(kind, A, untag):
     """Build an automaton of class `kind` directly from an abstract value (used by replays of
     recorded events); untag maps tags back to Python values."""
